@@ -1,4 +1,6 @@
 import ArrowModel.C05.Lemmas
+import ArrowModel.C05.LevelsLemmas
+import ArrowModel.C05.DeltaLemmas
 /-
 C05 — property theorems.  "Parquet write then read returns the same values": the parts of
 the write/read pipeline that are *formats with an encoder and a decoder* are proved to
@@ -101,6 +103,118 @@ theorem shred_partition (p : List Layer) (parts : List (List (ValOf p))) :
   | nil => simp
   | cons a as ih => simp [List.flatMap_append, ih]
 
+/-- **Record assembly inverts shredding**, for every layer path (any nesting of nullable /
+required leaves, structs and lists) and every value: cutting the entry stream at the
+repetition levels and reading nulls / empty lists off the definition levels gives the value
+back — nulls at every level and empty lists included. -/
+theorem assemble_inverts_shred (p : List Layer) (d k r : Nat) (v : ValOf p) :
+    assemble p d k (shred p d k r v) = some v := assemble_shred p d k r v
+
+/-- the same for a whole column: rows are delimited by repetition level 0 -/
+theorem assembleCol_inverts_shredCol (p : List Layer) (rows : List (ValOf p)) :
+    assembleCol p (shredCol p rows) = some rows := assembleCol_shredCol p rows
+
+example (rows : List (Option (List (Option Nat)))) :
+    assembleCol [.opt, .rep, .opt] (shredCol [.opt, .rep, .opt] rows) = some rows :=
+  assembleCol_inverts_shredCol [.opt, .rep, .opt] rows
+
+/-- **`write_leaf`, all three paths** (all-null fast path; bulk fill of long null-heavy ranges,
+gated by the regenerated `BULK_FILL_MIN_LEN` / 50 % threshold, with the `+ range.start` rebase
+of `non_null_indices`; per-element path): for every validity buffer and every sub-range the
+levels and non-null indices are exactly those of the element-by-element writer. -/
+theorem writeLeaf_all_paths (nl : Bool) (valid : Option (List Bool)) (n d k a b : Nat)
+    (hwf : ∀ bs, valid = some bs → bs.length = n) (hb : b ≤ n) :
+    writeLeaf nl valid d k a b = rangeLv (.leaf nl valid n) d k a b := writeLeaf_eq nl valid n d k a b hwf hb
+
+/-- **The run-batched `LevelInfoBuilder` equals the textbook row-by-row shredder** on every
+well-formed array whose leaf path has at most one list level (nullable / required leaf,
+struct and list nodes in any order around it): all-null fast paths, null / non-null run
+batching of `write_struct`, Null / Empty / NonEmpty run classification of `write_list_impl`,
+the batched child write and the `write_list_direct` re-stamping of slot starts, for every
+sub-range `a..b`. -/
+theorem levelBuilder_batched_eq_textbook (arr : PArr) (hwf : arr.WF) (hd : arr.Direct)
+    (d k a b : Nat) (hab : a ≤ b) (hb : b ≤ arr.len) :
+    bwrite arr d k a b = rangeLv arr d k a b := bwrite_eq_rangeLv arr hwf hd d k a b hab hb
+
+example : (PArr.list true (some [true, false]) [0, 2, 2] (.leaf true (some [true, false]) 2)).WF ∧
+    (PArr.list true (some [true, false]) [0, 2, 2] (.leaf true (some [true, false]) 2)).Direct := by
+  refine ⟨⟨?_, ?_, ?_, ?_⟩, ⟨rfl, trivial⟩⟩
+  · intro bs h; cases h; rfl
+  · intro i hi
+    have : i = 0 ∨ i = 1 := by simp at hi; omega
+    rcases this with h | h <;> subst h <;> decide
+  · intro i hi
+    have : i = 0 ∨ i = 1 ∨ i = 2 := by simp at hi; omega
+    rcases this with h | h | h <;> subst h <;> decide
+  · intro bs h; cases h; rfl
+
+/-- PARTIAL (gap): for nested lists (a list whose elements contain another list) the builder
+re-stamps by the backward scan of `write_list_scan`; `stampScan` models it as written and the
+driver / `#eval` agree with the textbook writer on examples, but only the run decomposition
+part is proved for it: whatever `emit_non_empty_run` does, batching by maximal runs is sound. -/
+theorem listRuns_sound_partial {κ : Type} [DecidableEq κ] (cls : Nat → κ) (E : κ × Nat × Nat → Lv)
+    (S : Nat → Lv) (a b : Nat)
+    (H : ∀ kind s e, a ≤ s → s < e → e ≤ b → (∀ i, s ≤ i → i < e → cls i = kind) →
+      E (kind, s, e) = Lv.cat ((List.range' s (e - s)).map S)) :
+    Lv.cat ((runsOf cls a b).map E) = Lv.cat ((List.range' a (b - a)).map S) := runsOf_cat cls E S a b H
+
+/-- the two `+ range.start` rebases of `non_null_indices` in `write_leaf` are still in the source
+(regenerated on every run; dropping one makes this fail, as it would make `writeLeaf_all_paths`
+false for the code) -/
+theorem leaf_rebase_present : LEAF_BULK_REBASE_lost = false ∧ LEAF_ITER_REBASE_lost = false := by decide
+
+/-- **DELTA_BINARY_PACKED, wrapping core**: for every bit pattern of value, previous value and
+block minimum (overflow / wrap-around included), `raw + min_delta + last_value` restores the
+value whose delta was stored as `(value - last_value) - min_delta`. -/
+theorem delta_wrapping_core {n : Nat} (v last md : BitVec n) :
+    BitVec.ofNat n ((v - last) - md).toNat + md + last = v := delta_core v last md
+
+/-- PARTIAL (gap: the header, the sequencing of blocks / mini blocks and the width bytes in the
+decoder state machine `deltaGetLoop` are compared with the real decoder, not proved): one
+INT64 mini block of `flush_block_values` — deltas minus the block minimum, packed at the width
+of the mini block's maximum, zero padded — is unpacked and reconstructed to the original
+values, for every value list incl. wrap-around. -/
+theorem delta_miniblock_i64_partial (last : BitVec 64) (xs blockDeltas : List (BitVec 64))
+    (pad : List Nat) (rest : List Bool) (hsub : ∀ d ∈ deltasFrom last xs, d ∈ blockDeltas)
+    (h8 : (xs.length + pad.length) % 8 = 0) (hpad : ∀ p ∈ pad, p = 0) :
+    let ds := deltasFrom last xs
+    let minDelta := sminList (blockDeltas.headD 0) blockDeltas
+    let width := numRequiredBits (smaxList (ds.headD 0) ds - minDelta).toNat
+    recon minDelta last (unpack width xs.length
+      (bitsOfBytes (packBytes width (ds.map (fun d => (d - minDelta).toNat) ++ pad)) ++ rest)) = xs :=
+  deltaMiniBlock_roundtrip64_partial last xs blockDeltas pad rest hsub h8 hpad
+
+/-- the same for INT32 -/
+theorem delta_miniblock_i32_partial (last : BitVec 32) (xs blockDeltas : List (BitVec 32))
+    (pad : List Nat) (rest : List Bool) (hsub : ∀ d ∈ deltasFrom last xs, d ∈ blockDeltas)
+    (h8 : (xs.length + pad.length) % 8 = 0) (hpad : ∀ p ∈ pad, p = 0) :
+    let ds := deltasFrom last xs
+    let minDelta := sminList (blockDeltas.headD 0) blockDeltas
+    let width := numRequiredBits (smaxList (ds.headD 0) ds - minDelta).toNat
+    recon minDelta last (unpack width xs.length
+      (bitsOfBytes (packBytes width (ds.map (fun d => (d - minDelta).toNat) ++ pad)) ++ rest)) = xs :=
+  deltaMiniBlock_roundtrip32_partial last xs blockDeltas pad rest hsub h8 hpad
+
+example : (∀ d ∈ deltasFrom (5 : BitVec 64) [9223372036854775807#64, 0#64], d ∈ deltasFrom (5 : BitVec 64) [9223372036854775807#64, 0#64]) :=
+  fun _ h => h
+
+/-- PARTIAL (gap: the two length streams are DELTA_BINARY_PACKED, see above): the prefix /
+suffix split of `DeltaByteArrayEncoder::put` is inverted by the decoder's
+`previous[..prefix_len] ++ suffix`. -/
+theorem dba_prefix_suffix_partial (xs : List (List Nat)) (prev : List Nat) :
+    dbaJoin prev (dbaSplit prev xs) = xs := dbaJoin_dbaSplit xs prev
+
+/-- PARTIAL (same gap): cutting the concatenated data of DELTA_LENGTH_BYTE_ARRAY by the lengths
+returns the byte arrays. -/
+theorem dlba_split_partial (xs : List (List Nat)) (rest : List Nat) :
+    splitLens (xs.map List.length) (xs.flatten ++ rest) = xs := splitLens_flatten xs rest
+
+/-- **BYTE_STREAM_SPLIT round trip** for every list of equal-width values. -/
+theorem byteStreamSplit_roundtrip (size : Nat) (xs : List (List Nat)) (h : ∀ x ∈ xs, x.length = size) :
+    byteStreamJoin size xs.length (byteStreamSplit size xs) = xs := byteStreamJoin_split size xs h
+
+example : ∀ x ∈ [[1, 2, 3, 4], [5, 6, 7, 8]], x.length = 4 := by decide
+
 /-- **Format constants** the specification (`encodeRun`, `uleb`, `Run.Valid`) and the proofs
 hard-code, as regenerated from the current sources by `tools/translate.py`: a change of any
 of these literals in `rle.rs` / `bit_util.rs` / `encoding/mod.rs` / `decoding.rs` breaks this
@@ -116,6 +230,7 @@ theorem format_constants :
     (DELTA_MINI_BLOCK_SIZE_I64 * DEFAULT_NUM_MINI_BLOCKS) % DELTA_BLOCK_MULTIPLE = 0 ∧
     DELTA_MINI_BLOCK_SIZE_I32 % DELTA_MINI_BLOCK_MULTIPLE = 0 ∧
     DELTA_MINI_BLOCK_SIZE_I64 % DELTA_MINI_BLOCK_MULTIPLE = 0 ∧
+    0 < BULK_FILL_MIN_LEN ∧ 0 < BULK_FILL_NULL_FACTOR ∧
     -- a bit-packed run's group count fits the single indicator byte the encoder reserves
     ((MAX_GROUPS_PER_BIT_PACKED_RUN - 1) <<< BP_INDICATOR_SHIFT ||| BP_INDICATOR_FLAG) < 256 := by
   decide
